@@ -34,6 +34,7 @@ import SharkVerif.Lemmas.McBias
 import SharkVerif.Lemmas.McSolveStuck
 import SharkVerif.Lemmas.McDecision
 import SharkVerif.Lemmas.McSimplexRenum
+import SharkVerif.Lemmas.McSimplexGap
 namespace SharkVerif.C16
 open SharkVerif.Mc SharkVerif.Gen.McTables SharkVerif.McTables
 
@@ -491,6 +492,50 @@ theorem simplex_stop_is_kkt (s : McSx Rat) (h : SxInv s) (eps : Rat) (maxIter : 
     (hstop : (solveX s eps maxIter).stop = .accuracy) :
     (solveX s eps maxIter).s.b.activeVar = (solveX s eps maxIter).s.b.P * (solveX s eps maxIter).s.b.n ∧
     KKTsx (solveX s eps maxIter).s eps := solveX_stop_kkt s h eps maxIter hstop
+
+/-- **stop ⇒ KKT(eps) ⇒ objective gap for the simplex-constrained dual, end to end for the generated problems**
+(CS, ATM, ADM, MMR; `Q = M ⊗ K` with a Gram kernel matrix): if `QpSolver<QpMcSimplexDecomp>::solve` reports
+`QpAccuracyReached`, then for every `b ≥ 0` with `Σ_p b(i,p) ≤ C` (in the numbering of the final state, a renumbering
+of the original dual by `simplex_run_renumbers`)
+`D(b) − D(α) ≤ n·(eps·(2C + 1e-14) + 1e-14·C·G)`, `G ≥ 0` any bound of the final gradient components.  The second
+term is the price of the code's snapping of `varsum` to `C` (an example counts as "at the bound" while its true sum may
+be `C(1 − 1e-14)`); the multiplier of an example's sum constraint is the smallest gradient of its positive variables. -/
+theorem simplex_generated_near_optimal (f : Family) (c n : Nat) (hc : 2 ≤ c) (C : Rat) (hC : 0 < C)
+    (T : Nat) (φ : Nat → Nat → Rat) (labels : Nat → Nat) (hl : ∀ i < n, labels i < c)
+    (linMat : Nat → Nat → Rat) (eps : Rat) (maxIter : Nat)
+    (hstop : (solveX (simplexProblem f c n C (gramK T φ) labels linMat) eps maxIter).stop = .accuracy)
+    (G : Rat) (hG0 : 0 ≤ G)
+    (hG : ∀ v < (solveX (simplexProblem f c n C (gramK T φ) labels linMat) eps maxIter).s.b.P *
+        (solveX (simplexProblem f c n C (gramK T φ) labels linMat) eps maxIter).s.b.n,
+      (solveX (simplexProblem f c n C (gramK T φ) labels linMat) eps maxIter).s.b.grad v ≤ G)
+    (b : Nat → Rat) (hb : FeasibleSx (solveX (simplexProblem f c n C (gramK T φ) labels linMat) eps maxIter).s b) :
+    dualObj ((solveX (simplexProblem f c n C (gramK T φ) labels linMat) eps maxIter).s.b.P *
+          (solveX (simplexProblem f c n C (gramK T φ) labels linMat) eps maxIter).s.b.n)
+        (solveX (simplexProblem f c n C (gramK T φ) labels linMat) eps maxIter).s.b.lin
+        (solveX (simplexProblem f c n C (gramK T φ) labels linMat) eps maxIter).s.b.Q b
+      - dualObj ((solveX (simplexProblem f c n C (gramK T φ) labels linMat) eps maxIter).s.b.P *
+          (solveX (simplexProblem f c n C (gramK T φ) labels linMat) eps maxIter).s.b.n)
+        (solveX (simplexProblem f c n C (gramK T φ) labels linMat) eps maxIter).s.b.lin
+        (solveX (simplexProblem f c n C (gramK T φ) labels linMat) eps maxIter).s.b.Q
+        (solveX (simplexProblem f c n C (gramK T φ) labels linMat) eps maxIter).s.b.alpha
+      ≤ (solveX (simplexProblem f c n C (gramK T φ) labels linMat) eps maxIter).s.b.n *
+          (eps * (2 * (solveX (simplexProblem f c n C (gramK T φ) labels linMat) eps maxIter).s.b.C + (1.e-14 : Rat))
+            + (1.e-14 : Rat) * (solveX (simplexProblem f c n C (gramK T φ) labels linMat) eps maxIter).s.b.C * G) :=
+  solveX_stop_near_optimal _ (simplex_invariants_initially f c n hc C (le_of_lt hC) _ (gramK_symm T φ) labels hl linMat)
+    (generated_Q_psd f c n hc C T φ labels hl linMat) hC eps maxIter hstop G hG0 hG b hb
+
+/-- the abstract statement: any state with the invariants, all variables active and `checkKKT`-style KKT(eps) -/
+theorem simplex_kkt_eps_near_optimal (s : McSx Rat) (h : SxInv s) (hall : s.b.activeVar = s.b.P * s.b.n)
+    (hpsd : PSD (s.b.P * s.b.n) s.b.Q) (hC : 0 < s.b.C) (eps : Rat) (heps : 0 ≤ eps) (hk : KKTsx s eps)
+    (G : Rat) (hG0 : 0 ≤ G) (hG : ∀ v < s.b.P * s.b.n, s.b.grad v ≤ G) (b : Nat → Rat) (hb : FeasibleSx s b) :
+    dualObj (s.b.P * s.b.n) s.b.lin s.b.Q b - dualObj (s.b.P * s.b.n) s.b.lin s.b.Q s.b.alpha
+      ≤ s.b.n * (eps * (2 * s.b.C + (1.e-14 : Rat)) + (1.e-14 : Rat) * s.b.C * G) :=
+  simplex_kkt_gap s h hall hpsd hC eps heps hk G hG0 hG b hb
+
+/-- non-vacuity of `FeasibleSx` / `KKTsx`: the fresh MMR problem with one example (`α = 0`, gradient `1`) is 2-KKT and
+`b = 0` is feasible -/
+example : FeasibleSx (simplexProblem .MMR 2 1 1 (fun _ _ => 1) (fun _ => 0) (fun _ _ => 1)) (fun _ => 0) :=
+  ⟨fun _ _ => le_refl _, fun e _ => by simp [simplexProblem, McSx.init, McBox.init, Family.P]⟩
 
 /-- non-vacuity: the invariant is satisfiable with a non-trivial state (fresh CS problem, 3 classes, 2 examples) -/
 example : SxInv (simplexProblem .WWCS 3 2 1 (fun i j => if i = j then 1 else 0) (fun i => i) (fun _ _ => 1)) :=
